@@ -247,7 +247,27 @@ and gen_group r m e t size =
   let e' = ref e in
   let i = ref 0 in
   while !i < n do
-    (match Rng.int r 12 with
+    (match Rng.int r 13 with
+     | 12 ->
+       (* a recursive type-level function (or a mutually recursive pair), followed in the SAME group by a value
+          whose annotation needs it unfolded several levels deep: the function is not the last member of its
+          group, and the group's type is compared with the expected type from outside the group *)
+       let rep = fresh_name e "rep" and nn = fresh_name e "n" and x = fresh_name e "v" in
+       let dt = Rng.pick r [ Int; Int; Bool; Arrow (Int, Int) ] in
+       let other = if dt = Bool then SInt else SBool in
+       let depth = Rng.int r 4 in
+       let tyfun self = SLam (nn, false, Some SInt,
+                              SIf (SBin ((if Rng.bool r then "<=" else "=="), SVar nn, SLit "0"), src_of_ty dt,
+                                   (if Rng.chance r 1 4 then SIf (SBin ("<", SVar nn, SLit "0"), other, SApp (SVar self, SBin ("-", SVar nn, SLit "1")))
+                                    else SApp (SVar self, SBin ("-", SVar nn, SLit "1"))))) in
+       let fty = Some (SArrow (SInt, SType)) in
+       let d = gen r m !e' dt per in
+       if Rng.chance r 1 3 then begin
+         let rep2 = fresh_name e "rep" in
+         defs := (x, Some (SApp (SVar rep, SLit (string_of_int depth))), d) :: (rep2, fty, tyfun rep) :: (rep, fty, tyfun rep2) :: !defs
+       end else
+         defs := (x, Some (SApp (SVar rep, SLit (string_of_int depth))), d) :: (rep, fty, tyfun rep) :: !defs;
+       e' := { !e' with vars = (x, dt) :: !e'.vars }
      | 0 | 1 when per >= 3 ->
        (* recursive function with structural descent on its int argument *)
        let f = fresh_name e "f" in
@@ -336,8 +356,14 @@ and gen_group r m e t size =
        let target = Rng.pick r [ Int; Bool; Arrow (Int, Int) ] in
        let tann () = if Rng.int r 10 < m.annot_num then Some SType else None in
        let d1 = gen r m !e' target per in
-       defs := (v2, Some (SVar a2), SVar v1) :: (v1, Some (SVar a1), d1)
-               :: (a2, tann (), (if Rng.bool r then SVar a1 else src_of_ty target)) :: (a1, tann (), src_of_ty target) :: !defs;
+       (* one time in three the names are defined AFTER the values annotated with them (annotations that refer
+          forward inside the group); the values are later read under further binders like any other variable *)
+       let da1 = (a1, tann (), src_of_ty target) and da2 = (a2, tann (), (if Rng.bool r then SVar a1 else src_of_ty target)) in
+       let dv1 = (v1, Some (SVar a1), d1) and dv2 = (v2, Some (SVar a2), SVar v1) in
+       (match Rng.int r 6 with
+        | 0 -> defs := da2 :: da1 :: dv2 :: dv1 :: !defs
+        | 1 -> defs := da2 :: dv2 :: da1 :: dv1 :: !defs
+        | _ -> defs := dv2 :: dv1 :: da2 :: da1 :: !defs);
        e' := { !e' with aliases = (a2, target) :: (a1, target) :: !e'.aliases; vars = (v2, target) :: (v1, target) :: !e'.vars }
      | _ ->
        let x = fresh_name e "v" in
@@ -383,6 +409,47 @@ let empty_env () = { vars = []; fresh = ref 0; aliases = []; deps = []; polys = 
 let program (r : Rng.t) (m : mode) (t : ty) (size : int) : src =
   let e = empty_env () in
   gen r m e t size
+
+(* ------------------------------------------------------------------------------------------
+   Confusable types: two ways of writing a type that look alike - groups one of which is a prefix of the
+   other, the same function applied to different arguments, conditionals with the branches exchanged,
+   function types differing in one place - annotate a value and the place it is passed on to, and the
+   result is used at the second type. When the two denote different types the program must be rejected
+   (accepting it leaves `if 5 then ..`, `true + 1` or `7 1` to the evaluator); when they denote the same type
+   it must be accepted. Hole-free and fully annotated, so the verified checker decides every member. *)
+let confusable (r : Rng.t) : string =
+  let base = [| ("int", "5", (fun y -> y ^ " + 1")); ("bool", "true", (fun y -> "if " ^ y ^ " then 1 else 2"));
+                ("(int -> int)", "((z : int) => z * 2)", (fun y -> y ^ " 3"));
+                ("(int -> bool)", "((z : int) => z < 2)", (fun y -> "if " ^ y ^ " 3 then 1 else 2")) |] in
+  let i = Rng.int r 4 in
+  let j = if Rng.chance r 1 3 then i else Rng.int r 4 in
+  let (t1, v1, _) = base.(i) and (t2, _, use2) = base.(j) in
+  let other t = if t = "int" then "bool" else "int" in
+  (* ways of writing T; `o` is some other type that a sloppy comparison might confuse it with *)
+  let form t o k =
+    (match k with
+     | 0 -> t
+     | 1 -> Printf.sprintf "(t = %s; t)" t
+     | 2 -> Printf.sprintf "(t = %s; u = %s; u)" o t
+     | 3 -> Printf.sprintf "(t = %s; u = %s; t)" t o
+     | 4 -> Printf.sprintf "(t = %s; u = t; w = %s; u)" t o
+     | 5 -> Printf.sprintf "(((a : type) => a) %s)" t
+     | 6 -> Printf.sprintf "(((a : type) => (b : type) => a) %s %s)" t o
+     | 7 -> Printf.sprintf "(((a : type) => (b : type) => b) %s %s)" o t
+     | 8 -> Printf.sprintf "(if true then %s else %s)" t o
+     | 9 -> Printf.sprintf "(if false then %s else %s)" o t
+     | 10 -> Printf.sprintf "(if 1 < 2 then %s else %s)" t o
+     | 11 -> Printf.sprintf "(sel = (b : bool) => if b then %s else %s; sel true)" t o
+     | _ -> Printf.sprintf "(sel = (b : bool) => if b then %s else %s; sel false)" o t) in
+  let k1 = Rng.int r 13 and k2 = Rng.int r 13 in
+  (* the second annotation is written with the first type as its `other`, so that the two texts differ in as
+     little as possible *)
+  let a1 = form t1 (if i = j then other t1 else t2) k1 in
+  let a2 = form t2 (if i = j then other t2 else t1) k2 in
+  match Rng.int r 3 with
+  | 0 -> Printf.sprintf "x : %s = %s; y : %s = x; %s" a1 v1 a2 (use2 "y")
+  | 1 -> Printf.sprintf "x : %s = %s; f = (y : %s) => %s; f x" a1 v1 a2 (use2 "y")
+  | _ -> Printf.sprintf "x : %s = %s; ((y : %s) => %s) x" a1 v1 a2 (use2 "y")
 
 let hex_of_string (s : string) : string =
   let b = Buffer.create (2 * String.length s + 2) in
@@ -566,8 +633,13 @@ let to_string_parens (r : Rng.t) (s : src) : string =
     | SArrow (a, c) -> op a; p " -> "; body c
     | SApp (f, x) -> (match f with SApp _ when not (Rng.chance r 1 4) -> pr f | _ -> op f); p " "; op x
     | SLet (ds, bd) ->
-      List.iter (fun (x, an, d) -> p x; (match an with Some a -> (p " : "; op a) | None -> ()); p " = "; body d; p "; ") ds;
-      pr bd
+      (* the tail of a group may itself be parenthesised: `d1; (d2; body)` is the same group *)
+      let opened = ref 0 in
+      List.iteri (fun i (x, an, d) ->
+          if i > 0 && Rng.chance r 1 4 then (p "("; incr opened);
+          p x; (match an with Some a -> (p " : "; op a) | None -> ()); p " = "; body d; p "; ") ds;
+      if Rng.chance r 1 5 then (p "("; pr bd; p ")") else pr bd;
+      for _ = 1 to !opened do p ")" done
     | SNeg x -> p "-"; op x
     | SBin (o, x, y) -> op x; p " "; p o; p " "; op y
     | SIf (c, x, y) -> p "if "; body c; p " then "; body x; p " else "; body y in
